@@ -66,7 +66,7 @@ func ParseDistinguishedName(name string) (map[string]string, error) {
 // of dn1 has a matching key/value pair in dn2, otherwise returns false
 func IsSubsetDN(dn1 map[string]string, dn2 map[string]string) bool {
 	for key := range dn1 {
-		if dn1[key] != dn2[key] {
+		if value, ok := dn2[key]; !ok || dn1[key] != value {
 			return false
 		}
 	}
